@@ -26,8 +26,31 @@ def handler(*names):
     return deco
 
 
+import os as _os
+_KWLOG = _os.environ.get("VERIF_KWLOG")
+_KWGUARD = _os.environ.get("VERIF_KWGUARD", "1") != "0"
+_READS_KW = {}
+# keyword arguments that are only another spelling of a positional parameter the model reads positionally via argn(), or that cannot change the result
+BENIGN_KW = {"Hash": {"backend"}, "default_backend": set(), "update_wrapper": {"updated", "assigned"}}
+
+
+def _reads_kw(h):
+    """Does the handler ever load its 4th parameter (the keyword arguments)?"""
+    r = _READS_KW.get(h)
+    if r is None:
+        import dis
+        names = h.__code__.co_varnames
+        kwn = names[3] if h.__code__.co_argcount > 3 else None
+        r = _READS_KW[h] = kwn is not None and any(i.opname.startswith("LOAD_FAST") and kwn in (i.argval if isinstance(i.argval, tuple) else (i.argval,)) for i in dis.get_instructions(h))
+    return r
+
+
 def call_builtin(it, fn: VBuiltin, args, kwargs):
     name = fn.name
+    it._cur_builtin_name = name
+    if kwargs and _KWLOG:
+        with open(_KWLOG, "a") as fh:  # audit aid (VERIF_KWLOG=<file>): which modelled library calls receive keyword options
+            fh.write(f"{name} {sorted(kwargs)}\n")
     h = HANDLERS.get(name)
     if h is None:
         # match on dotted suffix (e.g. cryptography.hazmat.primitives.hashes.SHA256 -> hashes.SHA256)
@@ -36,6 +59,12 @@ def call_builtin(it, fn: VBuiltin, args, kwargs):
             h = HANDLERS.get(".".join(parts[i:]))
             if h is not None:
                 break
+    if h is not None and kwargs and _KWGUARD and not _reads_kw(h):
+        # a model that never looks at its keyword arguments must not be handed any it was not written for: an option that changes the
+        # behaviour of the real call (canonical=True, flags=..., errors=...) would otherwise be ignored silently (DESIGN.md I.7)
+        extra = set(kwargs) - BENIGN_KW.get(name.split(".")[-1], set())
+        if extra:
+            raise OutOfSubset(f"{name}: keyword option(s) {sorted(extra)} are not modelled")
     if h is None:
         if name in ("logging.getLogger",):
             return VLib("Logger")
@@ -78,11 +107,13 @@ def isinstance_(it, v: V, T: V):
         if n == "float":
             return isinstance(v, VFloat)
         if n == "dict":
+            if isinstance(v, VLib) and v.kind == "RelMap":
+                return not v.f["frozen"]
             return isinstance(v, VDict) and not v.frozen or (isinstance(v, VObj) and "__dict_base__" in v.attrs)
         if n in ("Mapping",):
-            return isinstance(v, VDict)
+            return isinstance(v, VDict) or (isinstance(v, VLib) and v.kind == "RelMap")
         if n == "list":
-            return isinstance(v, (VList, VSeq))
+            return isinstance(v, (VList, VSeq)) or (isinstance(v, VLib) and v.kind == "KeySet")
         if n == "tuple":
             return isinstance(v, VTuple)
         if n == "CBORTag":
@@ -377,6 +408,27 @@ def _pmap_pop(it, self, args, kw):
     return self.value_at(it, key)
 
 
+@handler("pmap.update")
+def _pmap_update(it, self, args, kw):
+    """m.update(other) for mappings of symbolic size of the SAME shape: m is afterwards SOME mapping of that shape (what was known about
+    individual keys is forgotten - an over-approximation of `old entries overridden by the entries of other`); in place."""
+    from . import plain
+    if kw or len(args) != 1:
+        raise OutOfSubset("dict.update with keyword arguments on a mapping of symbolic size")
+    if self.frozen:
+        it.raise_(AttributeError, "'cbor2.frozendict' object has no attribute 'update'")
+    src = args[0]
+    if isinstance(src, plain.VPlain):
+        src = plain.resolve(it, src)
+    if not isinstance(src, plain.VPMap):
+        raise OutOfSubset("update of a mapping of symbolic size with something that is not one")
+    if not (self.shape is src.shape or (self.shape is not None and src.shape is not None and self.shape.label == src.shape.label)):
+        raise OutOfSubset("update of a mapping of symbolic size with a mapping of a different shape")
+    self.cache, self.presence = {}, {}
+    self.n = it.fresh_int(f"size_{self.name}@updated", 0, plain.MAXLEN)
+    return NONE
+
+
 @handler("pmap.copy")
 def _pmap_copy(it, self, args, kw):
     from . import plain
@@ -430,6 +482,9 @@ def _dict(it, self, args, kw):
         if isinstance(src, VDict):
             for k in it.dict_keys(src):
                 d.entries[k] = DEntry(k, src.entries[k].value)
+        elif isinstance(src, VLib) and src.kind == "RelMap" and not kw:
+            from . import relmap
+            return relmap.copy_map(it, src, frozen=False)
         elif isinstance(src, VOpaque):
             from . import plain
             return plain.to_dict(it, src)
@@ -665,6 +720,19 @@ def _id(it, self, args, kw):
 @handler("bytes.hex")
 def _bytes_hex(it, self, args, kw):
     return _s().hex_of(it, self)
+
+
+@handler("bytes.ljust", "bytes.rjust")
+def _bytes_just(it, self, args, kw, _left=None):
+    """b.ljust(width, fill) / b.rjust(width, fill): padded with the (concrete, one-byte) fill up to `width`; unchanged when already that long."""
+    width = args[0]
+    fill = args[1] if len(args) > 1 else VBytes(b" ")
+    if not isinstance(width, VInt) or not isinstance(fill, VBytes) or fill.conc is None or len(fill.conc) != 1:
+        raise OutOfSubset("bytes.ljust/rjust with a symbolic fill or a non-int width")
+    s = _s()
+    pad = s.rep_bytes(it, fill.conc[0], VInt(width.e - z3.Length(self.e)) if (width.conc is None or self.conc is None) else VInt(width.conc - len(self.conc)))
+    name = getattr(it, "_cur_builtin_name", "")
+    return s.concat_bytes(self, pad) if not name.endswith("rjust") else s.concat_bytes(pad, self)
 
 
 @handler("bytes.strip", "bytes.lstrip", "bytes.rstrip")
@@ -1186,11 +1254,22 @@ def _ceil(it, self, args, kw):
 # ---------------------------------------------------------------------------------------------
 # cbor2
 # ---------------------------------------------------------------------------------------------
+def _cbor_enc_options(it, kw):
+    """Keyword options of cbor2.dump(s): `canonical` is modelled (map keys sorted by encoded length, then bytewise); any other option is out of reach."""
+    extra = set(kw) - {"canonical"}
+    if extra:
+        raise OutOfSubset(f"cbor2.dump(s) with option(s) {sorted(extra)}")
+    c = kw.get("canonical")
+    if c is None:
+        return False
+    return it.test(c)
+
+
 @handler("cbor2.dumps")
 def _cbor_dumps(it, self, args, kw):
     from . import cbor
     _s().note(it, "cbor2.dumps")
-    return cbor.enc(it, args[0])
+    return cbor.enc(it, args[0], canonical=_cbor_enc_options(it, kw))
 
 
 @handler("cbor2.CBORTag")
@@ -1218,7 +1297,7 @@ def _cbor_load(it, self, args, kw):
 def _cbor_dump(it, self, args, kw):
     from . import cbor
     _s().note(it, "cbor2.dump")
-    data = cbor.enc(it, args[0])
+    data = cbor.enc(it, args[0], canonical=_cbor_enc_options(it, kw))
     _s().file_method(it, args[1], "write", [data], {})
     return NONE
 
@@ -1384,6 +1463,42 @@ def _urandom(it, self, args, kw):
     return b
 
 
+@handler("secrets.token_bytes")
+def _token_bytes(it, self, args, kw):
+    """secrets.token_bytes(n) IS os.urandom(n) (CPython: SystemRandom): a fresh draw."""
+    return _urandom(it, self, [args[0] if args else VInt(32)], kw)
+
+
+@handler("random.randbytes", "random.Random.randbytes")
+def _randbytes(it, self, args, kw):
+    """random.randbytes(n): the next output of the process-global Mersenne Twister - a DETERMINISTIC function of ambient state that any
+    code in the process can reseed or replay.  It is NOT a fresh draw: the bytes are arbitrary but are not recorded as os.urandom draws,
+    so a clause that demands a fresh nonce cannot be discharged from it."""
+    b = it.fresh_bytes("prng_bytes", args[0])
+    it.trace.append(("nondet", "prng", b))
+    _s().note(it, "random (process-global PRNG, not a fresh source)")
+    return b
+
+
+@handler("random.getrandbits", "random.randrange", "random.randint", "secrets.randbits")
+def _rand_int(it, self, args, kw):
+    name = getattr(it, "_cur_builtin_name", "")
+    x = it.fresh_int("prng_int")
+    if name.endswith("randbits"):
+        k = args[0]
+        if k.conc is None:
+            raise OutOfSubset("randbits with a symbolic width")
+        it.assume(z3.And(x.e >= 0, x.e < 2 ** k.conc))
+    elif name.endswith("randint"):
+        it.assume(z3.And(x.e >= args[0].e, x.e <= args[1].e))
+    else:
+        lo, hi = (VInt(0), args[0]) if len(args) == 1 else (args[0], args[1])
+        it.assume(z3.And(x.e >= lo.e, x.e < hi.e))
+    it.trace.append(("nondet", "prng-int" if name.startswith("random") else "urandom-int", x))
+    _s().note(it, name)
+    return x
+
+
 @handler("os.path.getsize", "getsize")
 def _getsize(it, self, args, kw):
     s = _s()
@@ -1431,6 +1546,9 @@ def _Path_is_file_unbound(it, self, args, kw):
 def lib_getattr(it, obj: VLib, name: str):
     s = _s()
     k = obj.kind
+    if k in ("RelMap", "KeySet"):
+        from . import relmap
+        return relmap.method(it, obj, name)
     if k == "UUID":
         if name == "bytes":
             return obj.f["bytes"]
@@ -1469,11 +1587,35 @@ def lib_getattr(it, obj: VLib, name: str):
 
 
 def lib_getitem(it, obj, key):
+    if obj.kind == "RelMap":
+        from . import relmap
+        return relmap.getitem(it, obj, key)
     raise OutOfSubset(f"subscript of library object {obj.kind}")
 
 
 def lib_setitem(it, obj, key, val):
+    if obj.kind == "RelMap":
+        from . import relmap
+        return relmap.setitem(it, obj, key, val)
     raise OutOfSubset(f"item store on library object {obj.kind}")
+
+
+@handler("RelMap.keys")
+def _relmap_keys(it, self, args, kw):
+    from . import relmap
+    return relmap.relmap_keys(it, self, args, kw)
+
+
+@handler("RelMap.pop")
+def _relmap_pop(it, self, args, kw):
+    from . import relmap
+    return relmap.relmap_pop(it, self, args, kw)
+
+
+@handler("KeySet.remove")
+def _keyset_remove(it, self, args, kw):
+    from . import relmap
+    return relmap.keyset_remove(it, self, args, kw)
 
 
 @handler("File.read")
@@ -1528,9 +1670,21 @@ def _Path_is_dir(it, self, args, kw):
 
 @handler("Path.with_suffix")
 def _Path_with_suffix(it, self, args, kw):
-    # modelled for suffix-less names: p.with_suffix(s) == p + s (listed assumption)
-    _s().note(it, "Path.with_suffix modelled as string append (name without a suffix)")
-    return VLib("Path", s=_s().concat_str(self.f["s"], args[0]))
+    """p.with_suffix(s): the LAST suffix of the final component is replaced - p == stem ++ old with old == "" or old == "." ++ rest (rest non-empty, without
+    "." or "/", the "." not the first character of the component); result == stem ++ s.  Over-approximation: `old == ""` is always allowed (sound for universal
+    postconditions); for a path whose final component contains no "." it is forced, so the result is exactly p ++ s."""
+    p = self.f["s"]
+    if p.conc is not None and isinstance(args[0], VStr) and args[0].conc is not None:
+        import pathlib
+        return VLib("Path", s=VStr(str(pathlib.PurePosixPath(p.conc).with_suffix(args[0].conc))))
+    _s().note(it, "Path.with_suffix (replaces the last suffix of the final component)")
+    stem, old = it.fresh_str("stem"), it.fresh_str("old_suffix")
+    rest = z3.SubString(old.e, 1, z3.Length(old.e) - 1)
+    it.assume(p.e == z3.Concat(stem.e, old.e))
+    it.assume(z3.Or(old.e == z3.StringVal(""),
+                    z3.And(z3.PrefixOf(z3.StringVal("."), old.e), z3.Length(old.e) >= 2, z3.Not(z3.Contains(rest, z3.StringVal("."))), z3.Not(z3.Contains(rest, z3.StringVal("/"))),
+                           z3.Length(stem.e) >= 1, z3.Not(z3.SuffixOf(z3.StringVal("/"), stem.e)))))
+    return VLib("Path", s=_s().concat_str(stem, args[0]))
 
 
 # ---------------------------------------------------------------------------------------------
@@ -1978,7 +2132,7 @@ def _pk_sign(it, self, args, kw):
     data = args[0]
     if not isinstance(data, VBytes):
         it.raise_(TypeError, "data must be bytes-like")
-    it.trace.append(("crypto-sign", self.f["ktype"], self.f["key_size"].conc, data))
+    it.trace.append(("crypto-sign", self.f["ktype"], self.f["key_size"].conc, data, self.f.get("data")))
     if self.f["ktype"] == "ec":
         if len(args) < 2:
             it.raise_(TypeError, "sign() missing signature_algorithm")
